@@ -6,7 +6,7 @@
 (* checked on the recorded result by SplitterTrace.tla.                       *)
 EXTENDS Integers, Sequences, FiniteSets, TLC, Json
 
-CONSTANTS MaxSegs, WordLens, Widths, Seps, UnitLimits
+CONSTANTS MaxSegs, WordLens, Widths, Seps, UnitLimits, Space
 
 VARIABLES prof, ul
 vars == <<prof, ul>>
@@ -15,12 +15,29 @@ Segs == [wl : WordLens, cw : Widths, sep : Seps]
 \* a word must leave room for a break every 50 bytes, unless it is the "huge" one
 Sane(s) == s.wl * s.cw <= 49 \/ s.wl >= 60
 
-Init == /\ prof \in UNION {[1..k -> {s \in Segs : Sane(s)}] : k \in 1..MaxSegs}
+\* profiles: short sequences of segments
+ProfSpace == UNION {[1..k -> {s \in Segs : Sane(s)}] : k \in 1..MaxSegs}
+
+\* probes: ASCII prose with a break every 10 bytes whose only sentence ends lie at
+\* byte L + d1 and L + d2, L = the limit position in bytes (limit characters, or
+\* limit / TokensPerChar): just outside / at the edges of / inside the backward
+\* (100) and forward (100) sentence windows and the word windows (50) of the split
+\* search; 999 = no such sentence end.
+ProbeSpace == [d1 : {-150, -100, -99, -50, -1, 0, 999}, d2 : {1, 2, 49, 50, 51, 99, 100, 150, 999}]
+
+Init == /\ prof \in Space
         /\ ul \in UnitLimits
 Next == FALSE /\ UNCHANGED vars
 Spec == Init /\ [][Next]_vars
 
-ULs == {<<"characters", 200>>, <<"characters", 257>>, <<"tokens", 50>>, <<"tokens", 71>>}
+\* size configurations <<unit, hard maximum, characters per token = 1 / TokensPerChar>>:
+\* the product unit x TokensPerChar {0.1, 0.25, 0.5, 1.0} x maxima >= 200 for which the
+\* size bound is promised ...
+BoundULs == {<<"characters", 200, 4>>, <<"characters", 257, 4>>}
+            \cup {<<"tokens", lim, cpt>> : lim \in {200, 231}, cpt \in {10, 4, 2, 1}}
+\* ... plus small token maxima (conservation / UTF-8 only)
+ULs == BoundULs \cup {<<"tokens", 50, 4>>, <<"tokens", 71, 2>>}
 
-EmitCase == PrintT(ToJson([prof |-> prof, unit |-> ul[1], limit |-> ul[2], cpt |-> 4]))
+EmitCase  == PrintT(ToJson([prof |-> prof, unit |-> ul[1], limit |-> ul[2], cpt |-> ul[3]]))
+EmitProbe == PrintT(ToJson([probe |-> prof, unit |-> ul[1], limit |-> ul[2], cpt |-> ul[3]]))
 =============================================================================
